@@ -225,6 +225,60 @@ func (e BridgeEngine) genKind(r *Run, kind string) (Step, bool) {
 		return Step{Kind: "block", DtMs: secs * 1000, N: 1}, true
 	case "adv":
 		return e.genAdversary(r, c, v)
+	case "rebond-cycle":
+		// scripted scenario (queued as ordinary concrete steps): an oracle votes on a pending event,
+		// is removed by governance, waits for the unbonding period, unbonds, is approved again and
+		// bonds again - the vote cursor, the indexes and the stake ledger must survive that.
+		var bonded []int
+		appr := map[string]bool{}
+		for _, a := range v.Approved {
+			appr[a] = true
+		}
+		for i := range c.Oracles {
+			if or, ok := v.Oracles[c.oracleKey(w, i).Bech()]; ok && or.Online && appr[or.OracleAddress] {
+				bonded = append(bonded, i)
+			}
+		}
+		if len(bonded) < 4 || !c.Ext.Inited || len(c.Tokens) == 0 {
+			return Step{}, false
+		}
+		x := bonded[r.Rng.IntN(len(bonded))]
+		xk := c.oracleKey(w, x)
+		list := func(with bool) string {
+			var l []string
+			for i := range c.Oracles {
+				if appr[c.oracleKey(w, i).Bech()] && (i != x || with) {
+					l = append(l, fmt.Sprint(i))
+				}
+			}
+			return strings.Join(l, ",")
+		}
+		signer := KeyName("bridger", c.bridgerKey(w, x).Idx)
+		if bn, ok := e.bridgerNameOf(r, c, v.Oracles[xk.Bech()].BridgerAddress); ok {
+			signer = bn
+		}
+		var claims []Tx
+		top := c.Ext.EventNonce + 1
+		for n := v.EffectiveOracleNonce(xk.Bech()) + 1; n <= top; n++ {
+			a := A("chain", c.Name, "o", x, "n", n)
+			if signer != KeyName("bridger", c.bridgerKey(w, x).Idx) {
+				a["inner"] = signer
+			}
+			claims = append(claims, Tx{K: "claim", S: signer, A: a})
+		}
+		q := []Step{
+			{Kind: "ext", A: A("chain", c.Name, "op", "send_to_fx", "symbol", c.Tokens[0].Symbol, "user", 0, "amount", 1+r.Rng.IntN(500), "target", "")},
+			{Kind: "block", DtMs: 5000, N: 1, Txs: claims},
+			{Kind: "gov", DtMs: 5000, A: A("what", "update_oracles", "chain", c.Name, "oracles", list(false))},
+			{Kind: "block", DtMs: (r.Cfg.World.UnbondingSec + 120) * 1000, N: 1},
+			{Kind: "block", DtMs: 5000, N: 1, Txs: []Tx{{K: "unbond", S: KeyName("oracle", xk.Idx), A: A("chain", c.Name)}}},
+			{Kind: "gov", DtMs: 5000, A: A("what", "update_oracles", "chain", c.Name, "oracles", list(true))},
+			{Kind: "block", DtMs: 5000, N: 1, Txs: []Tx{{K: "bond", S: KeyName("oracle", xk.Idx), A: A("chain", c.Name, "o", x, "amount", FX(c.Cfg.DelegateThresholdFX).String(), "val", r.Rng.IntN(r.Cfg.World.Validators))}}},
+		}
+		r.Fault("membership")
+		r.Probe("rebond-cycle-scripted")
+		st.Setup = append(st.Setup, q[1:]...)
+		return q[0], true
 	case "actor":
 		i := r.Rng.IntN(len(c.Oracles))
 		if _, ok := v.Oracles[c.oracleKey(w, i).Bech()]; !ok {
